@@ -832,7 +832,7 @@ namespace pika::detail {
         std::string::size_type end = value.find_first_of(ch, begin + 1);
         while (end != std::string::npos)
         {
-            if (end != 0 && value[end - 1] != '\\') break;
+            if (end == 0 || value[end - 1] != '\\') break;
             value.replace(end - 1, 2, ch);
             end = value.find_first_of(ch, end);
         }
